@@ -382,6 +382,11 @@ class Check:
             if st.get('tie') == 'abstract-call-changed':
                 broken.append(dict(kind='correspondence', what='tie degraded for %s: %s' % (name, st.get('reason')),
                                    replay=dict(function=name, reason=st.get('reason'))))
+            elif st and st.get('tie') != 'translated':
+                # the source left the translated subset: the theorems were checked against the committed golden definition, not against the
+                # current code, and only the sampled correspondence binds the two — the T-tie no longer checks
+                broken.append(dict(kind='correspondence', what='T-tie lost for %s (%s): theorems about Gen.%s are about the golden definition, not the current source' % (
+                    name, st.get('reason'), st.get('lean', name)), replay=dict(function=name, reason=st.get('reason'), tie=st.get('tie'))))
         if broken and not impl and search is not None:
             search(10)
             impl = [v for v in self.violations if v['kind'] == 'impl']
